@@ -490,3 +490,306 @@ def judge(codes):
     if flags & BLIND_FLAGS:
         return ("known", [FINDING_OF_FLAG[f] for f in FINDING_OF_FLAG if flags & BLIND_FLAGS & f])
     return ("violation", strict)
+
+
+# ------------------------------------------------------------------------------------------------
+# case files
+# ------------------------------------------------------------------------------------------------
+HDR = ("From Coq Require Import QArith String.\n"
+       "From TT Require Import Base.Prelude Base.SccDoc Model.SccReader Model.SccReaderCases Spec.Cea608Screen.\n"
+       "Open Scope Z_scope.\n")
+
+
+def parse_scc_single_rate(scc):
+    """(df, [(label, [raw words])]) when every line of the file parses, all lines have the same rate, start after the
+    previous line has been transmitted and hold only four-digit hexadecimal words; None otherwise"""
+    out = []; df = None; prev_end = None
+    for l in scc.splitlines():
+        m = re.fullmatch(r"(\d\d):(\d\d):(\d\d)([:;])(\d\d)\t(.*)", l)
+        if not m:
+            if re.match(r"\d\d.\d\d.\d\d.\d\d\t", l): return None
+            continue
+        d = m.group(4) == ";"
+        if df is None: df = d
+        elif df != d: return None
+        words = [x for x in m.group(6).split(" ") if x]
+        if not all(re.fullmatch(r"[0-9a-fA-F]{4}", x) for x in words): return None
+        lab = tuple(int(m.group(i)) for i in (1, 2, 3, 5))
+        tm = 60 * lab[0] + lab[1]
+        t = (tm * 60 + lab[2]) * 30 + lab[3] - (2 * (tm - tm // 10) if d else 0)
+        if prev_end is not None and t < prev_end: return None
+        prev_end = t + len(words)
+        out.append((lab, [int(x, 16) for x in words]))
+    if df is None: return None
+    return df, out
+
+
+def lit_scase(df, slines, talign, scc, d):
+    sl = [f"mkSL {C.boolean(df)} {lab[0]} {lab[1]} {lab[2]} {lab[3]} [" + ";".join(map(str, ws)) + "]" for lab, ws in slines]
+    return f"mkSCase {C.boolean(df)} [" + ";\n ".join(sl) + "]\n (" + lit_case(talign, scc, d) + ")"
+
+
+def impl_job(args):
+    """worker: run the implementation on (talign, scc); returns the canonical document or a harness error"""
+    import logging
+    logging.disable(logging.CRITICAL)
+    sys.path.insert(0, C.SRC)
+    ta, scc = args
+    try:
+        return run_impl(scc, ta)
+    except Noncanonical as e:
+        return ("noncanonical", str(e))
+
+
+def write_shards(prefix, judged, plain, cap=180000):
+    """judged: list of (id, literal) of scase; plain: list of (id, literal) of case.  Returns [(path, judged ids, plain ids)]"""
+    files = []; cur_j, cur_p, size = [], [], 0
+    def flush():
+        nonlocal cur_j, cur_p, size
+        if not cur_j and not cur_p: return
+        k = len(files)
+        txt = (HDR + "Definition js : list scase := [\n" + ";\n".join(l for _, l in cur_j) + "].\n"
+               "Definition ps : list case := [\n" + ";\n".join(l for _, l in cur_p) + "].\n"
+               "Eval vm_compute in check_all (map (fun k => case_model (s_case k)) js ++ cases_model ps).\n"
+               "Eval vm_compute in check_all (map case_parse js).\n"
+               "Eval vm_compute in (map case_spec js).\n")
+        p = f"{C.GEN}/{prefix}{k}.v"
+        with open(p, "w") as f: f.write(txt)
+        files.append((p, [i for i, _ in cur_j], [i for i, _ in cur_p]))
+        cur_j, cur_p, size = [], [], 0
+    for i, l in judged:
+        if size + len(l) > cap and (cur_j or cur_p): flush()
+        cur_j.append((i, l)); size += len(l)
+    for i, l in plain:
+        if size + len(l) > cap and (cur_j or cur_p): flush()
+        cur_p.append((i, l)); size += len(l)
+    flush()
+    return files
+
+
+def parse_shard_output(out, nj):
+    """-> (model_bad indices within js++ps, parse_bad indices within js, codes per judged case) or None"""
+    flat = " ".join(out.split())
+    ms = re.findall(r"=\s*\(\s*(\d+)\s*,\s*(\[[^\]]*\]|nil)\s*\)", flat)
+    if len(ms) != 2: return None
+    bad = [[int(x) for x in re.findall(r"\d+", b)] for _, b in ms]
+    if nj == 0: return bad[0], bad[1], []
+    m3 = re.search(r"= (\[\[.*\]\]) : list \(list Z\)", flat)
+    if not m3: return None
+    codes = [[int(x) for x in re.findall(r"-?\d+", grp)] for grp in re.findall(r"\[([^\[\]]*)\]", m3.group(1))]
+    if len(codes) != nj or any(len(c) != 11 for c in codes): return None
+    return bad[0], bad[1], codes
+
+
+def evaluate(prefix, cases):
+    """cases: list of dicts(talign, scc, doc, judged=(df, slines) or None).  Adds 'model_ok', 'parse_ok', 'codes'.
+    Returns the list of broken files."""
+    judged = [(i, lit_scase(c["judged"][0], c["judged"][1], c["talign"], c["scc"], c["doc"])) for i, c in enumerate(cases) if c["judged"]]
+    plain = [(i, lit_case(c["talign"], c["scc"], c["doc"])) for i, c in enumerate(cases) if not c["judged"]]
+    C.clean_cases(prefix)
+    files = write_shards(prefix, judged, plain)
+    res = C.coqc_many([p for p, _, _ in files], 1500)
+    broken = []
+    for p, jids, pids in files:
+        rc, out = res[p]
+        r = parse_shard_output(out, len(jids)) if rc == 0 else None
+        if r is None:
+            broken.append((p, out[-600:])); continue
+        mbad, pbad, codes = r
+        ids = jids + pids
+        for k, i in enumerate(ids): cases[i]["model_ok"] = k not in mbad
+        for k, i in enumerate(jids):
+            cases[i]["parse_ok"] = k not in pbad; cases[i]["codes"] = codes[k]
+    C.clean_cases(prefix)
+    return broken
+
+
+# ------------------------------------------------------------------------------------------------
+# the check
+# ------------------------------------------------------------------------------------------------
+PROOF_TARGETS = ["Proofs/C08/Stamps.vo", "Proofs/C08/Words.vo", "Model/SccReaderCases.vo", "Spec/Cea608Screen.vo"]
+
+
+def proposed_findings():
+    """findings_proposed/C08.txt: recorded findings not yet merged into KNOWN_FINDINGS.txt by the maintainer"""
+    out = []
+    try:
+        for line in open(C.VERIF + "/findings_proposed/C08.txt", encoding="utf-8"):
+            m = re.match(r"finding\s+property=(\S+)\s+id=(\S+)\s+what=(.*)", line.strip())
+            if m and m.group(1) == "C08": out.append(dict(property="C08", id=m.group(2), what=m.group(3)))
+    except OSError:
+        pass
+    return out
+
+
+def shrink(case, still_fails, rounds=8):
+    """delta debugging on the lines and words of a judged stream; still_fails(list of candidate cases) -> list of bool"""
+    df, sl = case["judged"]; ta = case["talign"]
+    def mk(sl2):
+        scc = "\n".join(tc_text(lab, df) + "\t" + " ".join("%04x" % w for w in ws) + "\n" for lab, ws in sl2)
+        return dict(talign=ta, scc=scc, judged=(df, sl2), kind=case.get("kind"))
+    best = mk(sl)
+    for _ in range(rounds):
+        cur = best["judged"][1]; cands = []
+        for i in range(len(cur)):
+            if len(cur) > 1: cands.append(cur[:i] + cur[i + 1:])
+        for i, (lab, ws) in enumerate(cur):
+            step = max(1, len(ws) // 6)
+            for j in range(0, len(ws), step):
+                if len(ws) - step >= 1: cands.append(cur[:i] + [(lab, ws[:j] + ws[j + step:])] + cur[i + 1:])
+        cands = [mk(c) for c in cands][:60]
+        if not cands: break
+        flags = still_fails(cands)
+        smaller = [c for c, f in zip(cands, flags) if f]
+        if not smaller: break
+        best = min(smaller, key=lambda c: sum(len(ws) for _, ws in c["judged"][1]))
+    return best
+
+
+def main():
+    from concurrent.futures import ProcessPoolExecutor
+    import gen_tables
+    run = C.Run("C08", "proof")
+    listed = {f["id"] for f in run.findings}
+    run.findings += [f for f in proposed_findings() if f["id"] not in listed]
+    run.hygiene()
+    sys.path.insert(0, C.SRC)
+    changed, errors = gen_tables.generate({"SccTables"})
+    if errors:
+        run.violation("table translator failed closed: " + "; ".join(errors), dict(kind="translator", errors=errors), False)
+        return run.finish()
+    ok, log = run.build(PROOF_TARGETS, clean=(run.tier == "thorough"))
+    proofs_ok = ok and run.theorems()
+    if not ok: run.proof_log = log[-2500:]
+    run.witnesses()
+    rc, out = C.coqc(C.COQ + "/Findings/C08.v", 900)
+    if rc != 0: run.cov["stale_findings"] = ["Findings/C08.v no longer compiles: " + out[-300:]]
+
+    # ---- inputs --------------------------------------------------------------------------------
+    rng = run.rng
+    n_proto, n_wild = (300, 100) if run.tier == "quick" else (7500, 2500)
+    cases = []
+    for s in test_file_streams():
+        for ta in range(4):
+            cases.append(dict(talign=ta, scc=s, kind="seed", judged=parse_scc_single_rate(s) if ta == 0 else None))
+    kinds = ["popon", "popon", "rollup", "painton", "mixed"]
+    for i in range(n_proto):
+        st = gen_protocol(rng, kinds[i % len(kinds)])
+        scc = st.scc()
+        cases.append(dict(talign=rng.randrange(4), scc=scc, kind=st.kind, judged=parse_scc_single_rate(scc), dbl=st.dbl))
+    for i in range(n_wild):
+        st = gen_wild(rng)
+        cases.append(dict(talign=rng.randrange(4), scc=st.scc(), kind="wild", judged=None))
+    rp = os.environ.get("VERIF_REPLAY")
+    if rp:
+        try:
+            r = json.load(open(rp))["replay"]
+            cases.insert(0, dict(talign=r.get("talign", 0), scc=r["scc"], kind="replay", judged=parse_scc_single_rate(r["scc"])))
+        except Exception as e:
+            run.log("replay file not usable:", e)
+
+    # ---- the implementation ----------------------------------------------------------------------
+    with ProcessPoolExecutor(C.NCPU) as ex:
+        docs = list(ex.map(impl_job, [(c["talign"], c["scc"]) for c in cases], chunksize=50))
+    harness_bad = []
+    for c, d in zip(cases, docs):
+        if d[0] == "noncanonical":
+            harness_bad.append((c, d[1])); c["doc"] = ("err", "noncanonical")
+        else:
+            c["doc"] = d
+    # a judged case must produce a document: a protocol stream on which the reader raises is a failure of the property
+    raised = [c for c in cases if c["judged"] and c["doc"][0] == "err"]
+
+    broken = evaluate("Cases_C08_", cases)
+    n_eval = sum(1 for c in cases if "model_ok" in c)
+    m_bad = [c for c in cases if c.get("model_ok") is False]
+    p_bad = [c for c in cases if c.get("parse_ok") is False]
+    verdicts = {}
+    viol, known_hist = [], {}
+    for c in cases:
+        if not c["judged"] or "codes" not in c: continue
+        v = judge(c["codes"]); c["verdict"] = v
+        verdicts[v[0]] = verdicts.get(v[0], 0) + 1
+        if v[0] == "known":
+            for fid in v[1]: known_hist[fid] = known_hist.get(fid, 0) + 1
+        elif v[0] == "violation":
+            viol.append(c)
+    run.log(f"{len(cases)} streams ({sum(1 for c in cases if c['judged'])} judged by S): model/code mismatches {len(m_bad)}, "
+            f"parse mismatches {len(p_bad)}, S verdicts {verdicts}, broken case files {len(broken)}")
+    for fid, n in sorted(known_hist.items()):
+        run.known(fid, f"{n} generated streams")
+        if fid not in {f["id"] for f in run.findings}:
+            run.violation(f"finding {fid} is not listed", dict(kind="unlisted-finding", id=fid), False)
+
+    def replay_of(c, extra=None):
+        d = dict(kind="S-on-code", scc=c["scc"], talign=c["talign"], text_align=TALIGN[c["talign"]], stream_kind=c.get("kind"),
+                 oracle_codes=c.get("codes"), spec="coq/Spec/Cea608Screen.v (oracle dev0 0 0 = S_word)",
+                 how="PYTHONPATH=/repo/src/main/python python -c 'import ttconv.scc.reader as r; print(r.to_model(open(F).read()))'")
+        if extra: d.update(extra)
+        return d
+
+    if viol:
+        c = viol[0]
+        def still_fails(cands):
+            with ProcessPoolExecutor(C.NCPU) as ex:
+                ds = list(ex.map(impl_job, [(x["talign"], x["scc"]) for x in cands]))
+            for x, d in zip(cands, ds): x["doc"] = d if d[0] != "noncanonical" else ("err", "noncanonical")
+            evaluate("Cases_C08_shrink_", cands)
+            return ["codes" in x and judge(x["codes"])[0] == "violation" for x in cands]
+        try:
+            small = shrink(c, still_fails)
+        except Exception as e:
+            small = c; run.log("shrinking failed:", e)
+        f = c["verdict"][1]
+        run.violation(f"SCC reader disagrees with the reference CEA-608 decoder outside every recorded finding: first rejected frame {f} "
+                      f"(stream kind {c.get('kind')}, {len(viol)} such streams)",
+                      replay_of(small, dict(original=c["scc"], first_rejected_frame=f, count=len(viol),
+                                            others=[x["scc"] for x in viol[1:4]])))
+    if raised:
+        c = raised[0]
+        run.violation(f"the reader raises {c['doc'][1]} on a stream that follows the protocol", replay_of(c, dict(count=len(raised))))
+    if harness_bad:
+        c, why = harness_bad[0]
+        run.violation("harness: implementation output has a shape the canonicaliser does not know: " + why,
+                      dict(kind="harness", scc=c["scc"], talign=c["talign"], why=why), found_input=False)
+    if (m_bad or p_bad or broken or not proofs_ok) and not viol:
+        what = []
+        if not proofs_ok: what.append("theorems of coq/Properties/C08.v no longer check: " + getattr(run, "proof_log", "")[-500:])
+        if m_bad: what.append(f"correspondence Model/SccReader.v vs ttconv.scc.reader.to_model disagrees on {len(m_bad)} streams")
+        if p_bad: what.append(f"harness parse vs Model from_str / frame count disagrees on {len(p_bad)} streams")
+        if broken: what.append(f"case files did not evaluate: {broken[0]}")
+        first = (m_bad or p_bad or [None])[0]
+        run.violation("; ".join(what), dict(kind="broken-tie", theorem_file="coq/Properties/C08.v", proofs_ok=proofs_ok,
+                                            correspondence="Model/SccReader.v to_model vs ttconv.scc.reader.to_model",
+                                            first_input=None if first is None else dict(scc=first["scc"], talign=first["talign"])),
+                      found_input=False)
+
+    kinds_hist = {}
+    for c in cases: kinds_hist[c["kind"]] = kinds_hist.get(c["kind"], 0) + 1
+    outcome_hist = {}
+    for c in cases:
+        k = "document" if c["doc"][0] == "ok" else c["doc"][1]
+        outcome_hist[k] = outcome_hist.get(k, 0) + 1
+    words = sum(len(ws) for c in cases if c["judged"] for _, ws in c["judged"][1])
+    distinct = len({json.dumps(c["doc"], default=str) for c in cases})
+    run.cov.update(evaluations=n_eval + sum(1 for c in cases if "codes" in c), distinct_nontrivial=distinct,
+                   rule="streams from three protocol grammars (pop-on, roll-up, paint-on, and sequences of them; any row / indent / tab, "
+                        "1-4 rows, standard / special / extended characters, PAC and mid-row attributes, optional ENM / EDM, channel-2 "
+                        "blocks, null padding, parity set or cleared, DF and NDF time codes near minute boundaries, doubled / single / "
+                        "mixed control codes) x text_align, plus unconstrained word streams (every class, both channels, malformed words, "
+                        "mixed rates) and the literal streams of test_scc_reader.py.  Oracle 1: Model/SccReader.v to_model = "
+                        "ttconv.scc.reader.to_model on every stream (inside Coq).  Oracle 2: the reference decoder of "
+                        "Spec/Cea608Screen.v against the implementation's document at every frame, on the protocol streams. "
+                        "distinct_nontrivial = number of distinct documents.",
+                   samples=[dict(kind=c["kind"], scc=c["scc"][:400], verdict=c.get("verdict")) for c in cases[len(cases) // 3:len(cases) // 3 + 3]],
+                   stream_kinds=kinds_hist, outcomes=outcome_hist, judged_words=words, s_verdicts=verdicts, findings_hit=known_hist,
+                   model_code_mismatches=len(m_bad), strictly_accepted=verdicts.get("ok", 0))
+    run.assumptions += ["S (Spec/Cea608Screen.v) is a reading of CTA-608-E sections 6-7 / 47 CFR 15.119; word attributes come from the C17-verified decoder",
+                        "the harness canonicalises the ContentDocument (harness/c08.py canon_doc) and parses the generated files for S (parse_scc_single_rate; cross-checked against M's from_str inside Coq)",
+                        "str.splitlines is applied by the harness, not modelled",
+                        "recorded findings are delimited by executable triggers (Spec/Cea608Screen.v triggers, Model/SccReaderCases.v region_above); three of them (pac-left-of-row-content, pac-right-of-row-content, rollup-text-after-edm-row0) excuse a stream as a whole"]
+    return run.finish(["harness/gen_tables.py (table translator, fail-closed)", "coq/Model/SccWord.v decode (C17)", "coq/Model/TimeCode.v (C12)"])
+
+
+if __name__ == "__main__":
+    sys.exit(main())
